@@ -52,6 +52,23 @@ def const_lit(a):
 
 
 ALPHA = z3.Star(z3.Union(z3.Range('a', 'z'), z3.Range('A', 'Z')))
+_C = z3.Range('\x80', '\xbf')
+# a Rust String is well-formed UTF-8: exactly the byte sequences of RFC 3629
+_R = z3.Range
+UTF8 = z3.Star(z3.Union(
+    _R('\x00', '\x7f'),
+    z3.Concat(_R('\xc2', '\xdf'), _C),
+    z3.Concat(z3.Re('\xe0'), _R('\xa0', '\xbf'), _C), z3.Concat(_R('\xe1', '\xec'), _C, _C), z3.Concat(z3.Re('\xed'), _R('\x80', '\x9f'), _C), z3.Concat(_R('\xee', '\xef'), _C, _C),
+    z3.Concat(z3.Re('\xf0'), _R('\x90', '\xbf'), _C, _C), z3.Concat(_R('\xf1', '\xf3'), _C, _C, _C), z3.Concat(z3.Re('\xf4'), _R('\x80', '\x8f'), _C, _C)))
+
+
+def model_bytes_to_str(zs):
+    """z3 string model -> Rust string, reading every z3 character as one byte; None when the bytes are not UTF-8."""
+    txt = re.sub(r'\\u\{([0-9a-fA-F]+)\}', lambda mm: chr(int(mm.group(1), 16)), zs)
+    try:
+        return bytes(ord(c) for c in txt).decode('utf-8')
+    except (ValueError, UnicodeDecodeError):
+        return None
 
 
 def run():
@@ -135,6 +152,49 @@ def run():
         o.fields[('as', 'Err')] = Obj('errv%d' % next(Obj.cnt))
         return o
 
+    def strval(path, x):
+        x = path.deref(x)
+        if isinstance(x, SObj):
+            return x.e
+        m = re.match(r'const:"(.*)"$', getattr(x, 'name', ''))
+        if m:
+            return z3.StringVal(m.group(1))
+        raise mirx.Unsupported('expected a string value, got %s' % getattr(x, 'name', x))
+
+    CONT = z3.Range('\x80', '\xbf')
+
+    def s_index_range(eng, path, argv, callee):
+        # str slicing by byte offsets: panics when an offset is beyond the end or not on a char boundary
+        # (in a UTF-8 byte string: the byte at the offset is a continuation byte 0x80..0xBF)
+        e = strval(path, argv[0])
+        rng = path.deref(argv[1])
+        n = z3.Length(e)
+
+        def off_bad(o):
+            return z3.Or(o > n, z3.And(o < n, z3.InRe(z3.SubString(e, o, 1), CONT)))
+        if 'RangeTo<' in callee:
+            lo, hi = z3.IntVal(0), rng.get(0).scalar()
+            bad = off_bad(hi)
+        elif 'RangeFrom<' in callee:
+            lo, hi = rng.get(0).scalar(), n
+            bad = off_bad(lo)
+        else:
+            lo, hi = rng.get(0).scalar(), rng.get(1).scalar()
+            bad = z3.Or(lo > hi, off_bad(lo), off_bad(hi))
+        if eng.feasible(path.cond + [bad]):
+            p2 = path.fork()
+            p2.cond.append(bad)
+            p2.outcome = ('panic', 'byte index is out of bounds or not a char boundary')
+            eng.done.append(p2)
+        path.cond.append(z3.Not(bad))
+        return SObj(z3.SubString(e, lo, hi - lo))
+
+    def s_str_eq(eng, path, argv, callee):
+        return bool_obj(strval(path, argv[0]) == strval(path, argv[1]))
+
+    def s_str_ne(eng, path, argv, callee):
+        return bool_obj(strval(path, argv[0]) != strval(path, argv[1]))
+
     def s_generic_err(eng, path, argv, callee):
         return Obj('stderr%d' % next(Obj.cnt))
 
@@ -147,6 +207,9 @@ def run():
         (r'<impl str>::strip_prefix::<&str>$', s_strip_prefix),
         (r'Option::<&str>::unwrap$', s_unwrap),
         (r'StdError::generic_err::<', s_generic_err),
+        (r'as std::ops::Index<Range(To|From)?<usize>>>::index$|as Index<Range(To|From)?<usize>>>::index$', s_index_range),
+        (r'<&str as PartialEq>::eq$|<str as PartialEq>::eq$|<std::string::String as PartialEq<&str>>::eq$|<std::string::String as PartialEq<str>>::eq$|<std::string::String as PartialEq>::eq$', s_str_eq),
+        (r'<&str as PartialEq>::ne$|<str as PartialEq>::ne$|<std::string::String as PartialEq<&str>>::ne$|<std::string::String as PartialEq<str>>::ne$', s_str_ne),
         (r'<impl str>::parse::<u64>$', s_parse_u64),
         (r'^validate_address_prefix$|helpers::validate_address_prefix$', s_opaque_result),
         (r'Option::<.*>::transpose$', s_opaque_result),
@@ -202,16 +265,18 @@ def run():
             sol = z3.Solver()
             sol.set('timeout', 60000)
             sol.add(*defs)
+            sol.add(z3.InRe(s, UTF8))
             sol.add(neg)
             t0 = time.time()
             r = sol.check()
-            res = dict(name=name, result=str(r), ok=(r == z3.unsat), time_s=round(time.time() - t0, 3), prop='C14')
+            res = dict(name=name, result=str(r), ok=(r == z3.unsat), time_s=round(time.time() - t0, 3), prop='C14', props=['C14', 'C16'] if 'never panics' in name else ['C14'])
             if r == z3.sat:
                 m = sol.model()
                 v = m.eval(s, model_completion=True)
-                txt = re.sub(r'\\u\{([0-9a-fA-F]+)\}', lambda mm: chr(int(mm.group(1), 16)), v.as_string())
-                res['model'] = {'s': txt, 'fn': fname}
-                res['replay'] = dict(kind='denom', model={'s': txt, 'fn': fname})
+                txt = model_bytes_to_str(v.as_string())
+                res['model'] = {'s': txt if txt is not None else v.as_string(), 'fn': fname}
+                if txt is not None:
+                    res['replay'] = dict(kind='denom', model={'s': txt, 'fn': fname})
             if r == z3.unknown:
                 res['inconclusive'] = True
             results.append(res)
@@ -274,15 +339,17 @@ def run():
             sol.set('timeout', 60000)
             sol.add(*parse_axioms)
             sol.add(*defs)
+            sol.add(z3.InRe(ch, UTF8), z3.InRe(dn, UTF8))
             sol.add(neg)
             t0 = time.time()
             r = sol.check()
             res = dict(name=name, result=str(r), ok=(r == z3.unsat), time_s=round(time.time() - t0, 3), prop='C14', props=props)
             if r == z3.sat:
                 m = sol.model()
-                un = lambda t_: re.sub(r'\\u\{([0-9a-fA-F]+)\}', lambda mm: chr(int(mm.group(1), 16)), t_)
-                res['model'] = {'channel': un(m.eval(ch, model_completion=True).as_string()), 'denom': un(m.eval(dn, model_completion=True).as_string())}
-                res['replay'] = dict(kind='protocfg', model=res['model'])
+                mc, md = model_bytes_to_str(m.eval(ch, model_completion=True).as_string()), model_bytes_to_str(m.eval(dn, model_completion=True).as_string())
+                res['model'] = {'channel': mc, 'denom': md}
+                if mc is not None and md is not None:
+                    res['replay'] = dict(kind='protocfg', model=res['model'])
             if r == z3.unknown:
                 res['inconclusive'] = True
             results.append(res)
